@@ -112,24 +112,21 @@ theorem available_true_justified (cfg : Cfg) (rm : Remotes) (s : Sys) (mem : OSe
     (hnd : hasDuplicates mem.phases = false)
     (co : List CRef) (failing : Option String) (w : World)
     (hph : reconcilePhases cfg mem.owner (lookupPrev s mem) (rm.recon mem) mem.phases s.w [] = (w, .ok (co, failing))) :
-    let final := finishMem (deriveStatus mem co failing)
+    let final := finishMem { w with remoteRefs := [] }
+      (deriveStatus { mem with remotePhases := w.remoteRefs.foldl addRemote mem.remotePhases } co failing)
     (condTrue final.conds "Available" = true →
       failing = none ∧
       (Pko.Props.C03.visitsPh cfg mem.owner (lookupPrev s mem) (rm.recon mem) mem.phases s.w).map (·.1) = mem.phases ∧
       (∀ v ∈ Pko.Props.C03.visitsPh cfg mem.owner (lookupPrev s mem) (rm.recon mem) mem.phases s.w,
         Pko.Props.C03.Clean cfg mem.owner (lookupPrev s mem) (rm.recon mem) v.1 v.2)) ∧
     final.controllerOf = co ∧
-    (activePhases cfg rm s mem).1.setEvents =
-      s.setEvents ++ [.statusUpdate final.name
-        (match ({ s with w := w }.updateStatus final).2 with | .ok _ => none | .error e => some e)
-        final.revision final.conds final.controllerOf] := by
-  have hav : condTrue (finishMem (deriveStatus mem co failing)).conds "Available" = failing.isNone := by
-    simp only [finishMem]
-    split
-    · rw [Pko.Lemmas.ObjectSet.condTrue_setCond_other _ _ _ (by simp)]
-      exact Pko.Lemmas.ObjectSet.deriveStatus_available _ _ _
-    · rw [Pko.Lemmas.ObjectSet.condTrue_removeCond_other _ _ _ (by decide)]
-      exact Pko.Lemmas.ObjectSet.deriveStatus_available _ _ _
+    ∃ r, (activePhases cfg rm s mem).1.setEvents =
+      s.setEvents ++ [.statusUpdate final.name r final.revision final.conds final.controllerOf] := by
+  intro final
+  have hav : condTrue final.conds "Available" = failing.isNone := by
+    simp only [final]
+    rw [Pko.Lemmas.ObjectSet.finishMem_condTrue_other _ _ _ (by decide)]
+    exact Pko.Lemmas.ObjectSet.deriveStatus_available _ _ _
   refine ⟨?_, ?_, ?_⟩
   · intro htrue
     rw [hav] at htrue
@@ -138,11 +135,10 @@ theorem available_true_justified (cfg : Cfg) (rm : Remotes) (s : Sys) (mem : OSe
     have := phases_ok_none_all_clean cfg mem.owner (lookupPrev s mem) (rm.recon mem) mem.phases s.w [] co
       (by rw [hph])
     exact ⟨rfl, this.1, this.2⟩
-  · simp only [finishMem]; split <;> rfl
+  · simp only [final]; rw [(Pko.Lemmas.ObjectSet.finishMem_fields _ _).1]; rfl
   · simp only [activePhases, hnd, Bool.false_eq_true, ↓reduceIte, hph, finish,
       Pko.Lemmas.ObjectSet.afterStatus_fst]
-    simp only [Sys.updateStatus]
-    split <;> simp_all [Pko.Lemmas.ObjectSet.lockedWrite_setEvents]
+    exact Pko.Lemmas.ObjectSet.updateStatus_setEvents _ _
 
 /-- **controllerOf_sound** (local phases): every entry the pass reports under `controllerOf` for a
 local phase is an object that its reconcile step returned in this pass with the owner as its
@@ -195,16 +191,14 @@ theorem succeeded_only_if (mem : OSet) (co : List CRef) (failing : Option String
 neither the normal path, nor the error paths, nor the paused / archival-in-progress paths. -/
 theorem succeeded_never_withdrawn (mem : OSet) (co : List CRef) (failing : Option String)
     (hold : condTrue mem.conds "Succeeded" = true) :
-    condTrue (finishMem (deriveStatus mem co failing)).conds "Succeeded" = true ∧
+    (∀ w, condTrue (finishMem w (deriveStatus mem co failing)).conds "Succeeded" = true) ∧
     (∀ reason, condTrue (setCond mem.conds (availableCond mem.gen false reason "")) "Succeeded" = true) ∧
-    condTrue (finishMem mem).conds "Succeeded" = true ∧
+    (∀ w, condTrue (finishMem w mem).conds "Succeeded" = true) ∧
     condTrue (removeCond (setCond mem.conds ⟨"Archived", "False", "ArchivalInProgress", mem.gen, ""⟩) "Available") "Succeeded" = true := by
-  have hfin : ∀ m : OSet, condTrue m.conds "Succeeded" = true → condTrue (finishMem m).conds "Succeeded" = true := by
-    intro m hm
-    simp only [finishMem]; split
-    · rw [Pko.Lemmas.ObjectSet.condTrue_setCond_other _ _ _ (by simp)]; exact hm
-    · rw [Pko.Lemmas.ObjectSet.condTrue_removeCond_other _ _ _ (by decide)]; exact hm
-  refine ⟨hfin _ ?_, ?_, hfin _ hold, ?_⟩
+  have hfin : ∀ (w : World) (m : OSet), condTrue m.conds "Succeeded" = true → condTrue (finishMem w m).conds "Succeeded" = true := by
+    intro w m hm
+    rw [Pko.Lemmas.ObjectSet.finishMem_condTrue_other _ _ _ (by decide)]; exact hm
+  refine ⟨fun w => hfin w _ ?_, ?_, fun w => hfin w _ hold, ?_⟩
   · have h1 : ∀ trans, condTrue (transConds mem.conds trans mem.gen) "Succeeded" = true := by
       intro trans
       simp only [transConds]; split
